@@ -20,9 +20,10 @@ from .sem import norm, nshow, atom_of, outcome_bool
 CPARAM = ("cparam",)
 MAXC = 0x110000
 
-ALL_CALLS = ("std::iter::Iterator::all",)
-ANY_CALLS = ("std::iter::Iterator::any",)
+ALL_CALLS = ("std::iter::Iterator::all", "<std::str::Bytes<'_> as std::iter::Iterator>::all")
+ANY_CALLS = ("std::iter::Iterator::any", "<std::str::Bytes<'_> as std::iter::Iterator>::any")
 CHARS = "core::str::<impl str>::chars"
+BYTES = "core::str::<impl str>::bytes"
 
 
 def f_not(f):
@@ -84,8 +85,8 @@ def subst_formula(f, mapping):
     k = f[0]
     if k in ("T", "F"):
         return f
-    if k == "not":
-        return ("not", subst_formula(f[1], mapping))
+    if k in ("not", "bytepred"):
+        return (k, subst_formula(f[1], mapping))
     if k in ("and", "or"):
         return (k, tuple(subst_formula(x, mapping) for x in f[1]))
     if k == "p":
@@ -136,6 +137,13 @@ class Summarizer:
                 # closure params: arg1 = env, arg2 = the char ; fn item: arg1 = the char
                 cf = subst_formula(cf, {2 if clo[0] == "closure" else 1: CPARAM})
                 return ("all" if path in ALL_CALLS else "any", it[2][0], cf)
+            if it[0] == "call" and it[1] == BYTES and clo[0] in ("closure", "fn") and clo[1] in self.facts.bodies:
+                # a predicate over the UTF-8 *bytes*: usable as a char predicate only if it rejects every byte >= 0x80
+                # (then "all bytes satisfy p" <=> "all chars are ASCII and satisfy p"); checked when the set is computed
+                cf = self.summary(clo[1], depth + 1)
+                cf = subst_formula(cf, {2 if clo[0] == "closure" else 1: CPARAM})
+                kind = "all" if path in ALL_CALLS else "any"
+                return (kind, it[2][0], ("bytepred", cf))
             raise AnchorError("Iterator::all/any over something other than str::chars with a local closure: %s" % nshow(it), body.key)
         if isinstance(path, str) and path in self.facts.bodies and self.facts.fns.get(path, {}).get("output") == "bool":
             f = self.summary(path, depth + 1)
@@ -354,6 +362,11 @@ def charset(f, facts=None):
         return 0
     if k == "not":
         return universe() & ~charset(f[1], facts)
+    if k == "bytepred":
+        v = charset(f[1], facts)
+        if v & (((1 << 256) - 1) ^ ((1 << 128) - 1)):
+            raise AnchorError("a predicate over UTF-8 bytes accepts bytes >= 0x80: it is not a predicate over characters")
+        return v & ((1 << 128) - 1)
     if k == "and":
         v = universe()
         for x in f[1]:
@@ -368,6 +381,19 @@ def charset(f, facts=None):
         name, args = f[1], f[2]
         if name in CHAR_PREDS and len(args) == 1 and args[0] == CPARAM:
             return set_of(CHAR_PREDS[name])
+        if name.startswith("core::num::<impl u8>::is_ascii") and len(args) == 1 and args[0] == CPARAM:
+            nm = name.split("::")[-1][3:]
+            return set_of(nm) if nm != "ascii" else (1 << 128) - 1
+        if name in ("std::ops::RangeInclusive::<Idx>::contains", "std::ops::Range::<Idx>::contains") and len(args) == 2 and args[1] == CPARAM:
+            r = args[0]
+            v = r[3] if r[0] == "named" else r[1] if r[0] == "const" else None
+            if isinstance(v, tuple) and v and v[0] == "struct" and v[1].startswith("std::ops::Range"):
+                fld = dict(v[2])
+                lo, hi = fld.get("start"), fld.get("end")
+                lo = lo[1] if isinstance(lo, tuple) and lo[0] == "char" else lo
+                hi = hi[1] if isinstance(hi, tuple) and hi[0] == "char" else hi
+                if isinstance(lo, int) and isinstance(hi, int):
+                    return range_bits(lo, hi if v[1].endswith("RangeInclusive") else hi - 1)
         if name == SLICE_CONTAINS and len(args) == 2 and args[1] == CPARAM:
             cs = const_chars(args[0])
             if cs is None and facts is not None:
@@ -391,6 +417,8 @@ def charset(f, facts=None):
             other = args[1] if args[0] == CPARAM else args[0] if args[1] == CPARAM else None
             if other is not None:
                 cs = const_chars(other)
+                if cs is None and other[0] == "const" and isinstance(other[1], int) and 0 <= other[1] < 256:
+                    cs = [other[1]]   # a byte constant
                 if cs is not None and len(cs) == 1:
                     v = 1 << cs[0]
                     return v if name == "binop:Eq" else universe() & ~v
@@ -509,6 +537,8 @@ def show_formula(f, d=0):
         return "true"
     if k == "F":
         return "false"
+    if k == "bytepred":
+        return "bytes:" + show_formula(f[1], d + 1)
     if k == "not":
         return "!" + show_formula(f[1], d + 1)
     if k in ("and", "or"):
